@@ -2,6 +2,7 @@ package main
 
 import (
 	"go/ast"
+	"go/token"
 	"go/types"
 	"strings"
 )
@@ -201,59 +202,86 @@ func runC06(c *Ctx) {
 func checkSilentSkipOnlyNotExists(c *Ctx, b *Body, rule string, requireSkip ...bool) {
 	info := b.Info()
 	p := c.P
-	n := 0
-	ast.Inspect(b.Block, func(nd ast.Node) bool {
-		ifs, ok := nd.(*ast.IfStmt)
+	f := b.Fn
+	// Decided on the guards of the worker's error reports (sends of an event carrying an error), in negation normal
+	// form: besides "the error is non-nil", the only condition under which an error is NOT reported is
+	// errors.Is(err, ErrNotExists). The syntactic form (nested ifs with continue, a switch with an empty case, an early
+	// continue) is immaterial.
+	isNotExistsTest := func(e ast.Expr) bool {
+		call, ok := ast.Unparen(e).(*ast.CallExpr)
 		if !ok {
-			return true
+			return false
 		}
-		// an if whose body ends in continue and contains no send
-		hasSend := false
-		ast.Inspect(ifs.Body, func(m ast.Node) bool {
-			if _, ok := m.(*ast.SendStmt); ok {
-				hasSend = true
-			}
-			return true
-		})
-		endsContinue := false
-		if l := len(ifs.Body.List); l > 0 {
-			if br, ok := ifs.Body.List[l-1].(*ast.BranchStmt); ok && br.Tok.String() == "continue" {
-				endsContinue = true
+		id := calleeID(info, call)
+		if (id == "pkg/errors.Is" || id == "errors.Is") && len(call.Args) == 2 {
+			if sel, ok := ast.Unparen(call.Args[1]).(*ast.SelectorExpr); ok && sel.Sel.Name == "ErrNotExists" {
+				return true
 			}
 		}
-		if hasSend || !endsContinue {
-			return true
+		return false
+	}
+	isNilTest := func(e ast.Expr) bool {
+		be, ok := ast.Unparen(e).(*ast.BinaryExpr)
+		if !ok || (be.Op != token.NEQ && be.Op != token.EQL) {
+			return false
 		}
-		// this is a silent skip: its condition must be errors.Is(err, X.ErrNotExists) (or an err != nil test that
-		// contains such a nested silent skip — handled when visiting the nested if)
-		if condNilnessAny(info, ifs.Cond) {
-			// `if err != nil { ...; continue }` with sends inside is not silent; without sends it is silent for all errors
-			c.fail(rule, b.Key()+":silent-skip", p.Pos(ifs.Pos()), "every error of the descriptor download is skipped silently, not only ErrNotExists: unreadable bundles vanish from listings")
-			n++
-			return true
+		t := info.TypeOf(be.X)
+		return t != nil && (isErrorType(t) || strings.HasSuffix(t.String(), "errors.Error"))
+	}
+	var root ast.Node = b.Block
+	nReports, nSkip := 0, 0
+	bad := ""
+	for _, ga := range guardedActions(f, root) {
+		snd, ok := ga.Node.(*ast.SendStmt)
+		if !ok {
+			continue
 		}
-		okCond := false
-		if call, ok := ast.Unparen(ifs.Cond).(*ast.CallExpr); ok {
-			id := calleeID(info, call)
-			if (id == "pkg/errors.Is" || id == "errors.Is") && len(call.Args) == 2 {
-				if sel, ok := ast.Unparen(call.Args[1]).(*ast.SelectorExpr); ok && sel.Sel.Name == "ErrNotExists" {
-					okCond = true
+		cl, ok := ast.Unparen(snd.Value).(*ast.CompositeLit)
+		if !ok {
+			continue
+		}
+		carriesErr := false
+		for _, el := range cl.Elts {
+			if kv, ok := el.(*ast.KeyValueExpr); ok {
+				if t := info.TypeOf(kv.Value); t != nil && (isErrorType(t) || strings.HasSuffix(t.String(), "errors.Error")) {
+					carriesErr = true
 				}
 			}
 		}
-		n++
-		c.check(okCond, rule, b.Key()+":silent-skip", p.Pos(ifs.Pos()),
-			"the only silent skip is guarded by errors.Is(err, ErrNotExists)",
-			"a key is skipped silently under condition `"+exprString(ifs.Cond)+"`, which is not the ErrNotExists test")
-		return true
-	})
-	if n == 0 && len(requireSkip) > 0 && !requireSkip[0] {
-		c.ok(rule, b.Key()+":silent-skip", p.Pos(b.Block.Pos()), "no key is skipped silently")
+		if !carriesErr {
+			continue
+		}
+		nReports++
+		for lit, at := range ga.Atoms {
+			switch {
+			case isNotExistsTest(at.Expr):
+				if at.Neg {
+					nSkip++
+				} else {
+					bad = "an error report is sent exactly when the error IS ErrNotExists (`" + lit + "`)"
+				}
+			case isNilTest(at.Expr):
+			default:
+				// any other condition on the way to the report silently drops some errors
+				if _, isCall := ast.Unparen(at.Expr).(*ast.CallExpr); isCall {
+					bad = "errors are also skipped silently under `" + lit + "`"
+				}
+			}
+		}
+	}
+	if nReports == 0 {
+		c.fail(rule, b.Key()+":silent-skip", p.Pos(b.Block.Pos()), "every error of the descriptor download is skipped silently (no error event is sent any more): unreadable objects vanish from listings")
 		return
 	}
-	if n == 0 {
-		c.fail(rule, b.Key()+":silent-skip", p.Pos(b.Block.Pos()), "no ErrNotExists skip found: bundles whose descriptor is missing are not skipped by the listing (interrupted uploads make listings fail or appear)")
+	if bad != "" {
+		c.fail(rule, b.Key()+":silent-skip", p.Pos(b.Block.Pos()), bad+": only a missing descriptor (ErrNotExists) may be skipped without reporting")
+		return
 	}
+	if nSkip == 0 && !(len(requireSkip) > 0 && !requireSkip[0]) {
+		c.fail(rule, b.Key()+":silent-skip", p.Pos(b.Block.Pos()), "no ErrNotExists skip found: bundles whose descriptor is missing are not skipped by the listing (interrupted uploads make listings fail or appear)")
+		return
+	}
+	c.ok(rule, b.Key()+":silent-skip", p.Pos(b.Block.Pos()), "errors are reported except ErrNotExists, the only silent skip")
 }
 
 func condNilnessAny(info *types.Info, cond ast.Expr) bool {
